@@ -264,6 +264,18 @@ func (e *Explorer) newHole(s sym, dyn types.Type, verb string) string {
 	case sF64:
 		info.Sort = "f64"
 		typ = "float64"
+	case sReal:
+		info.Sort = "grid"
+		typ = "float64"
+	case sInt:
+		info.Sort = "int"
+		info.Sgn = true
+		typ = "int64"
+		if dyn != nil {
+			if b, ok := dyn.Underlying().(*types.Basic); ok {
+				typ = b.Name()
+			}
+		}
 	case sBV:
 		info.Sort = "bv"
 		info.W = s.w
